@@ -24,8 +24,9 @@
   What remains false, with its witness: the legacy SSE server writes 202 before it classifies and decodes the body, so an
   id without method / result / error, and a request its typed decoder rejects (a number no float64 can hold), are accepted
   with an empty 202 and nothing follows on the stream — `C03_never_silent_sse_partial` + `C03_never_silent_sse_counterexample`.
-  Ids are judged up to ±2^53 (beyond, JSON implementations — this one included — hold them as floating point:
-  `C03_id_beyond_2_53_witness`).
+  Ids: a response carries the request's id as a NUMBER VALUE — exactly up to ±2^53; beyond, where the servers hold the id
+  as a float64 and print that, as the double nearest to it, never with another sign or magnitude (`wfMsg` demands
+  `nearestDouble`; `C03_ids_beyond_2_53`, `C03_id_edges_witness`).
 -/
 import Mcp.Lemmas.Rpc
 import Mcp.Gen.RpcFacts
@@ -120,14 +121,38 @@ theorem C03_unidentified_errors_carry_null_id :
      ((serveStdio demoReg (.json j)).messages.all (wfMsg (some j))) = true ∧ (serveStdio demoReg (.json j)).errorCode = some (-32700)) := by
   decide +kernel
 
-/-- The boundary of the id clause: an integer id beyond 2^53 comes back as the float64 it was decoded into (2^53 + 1 is
-    answered as 2^53); the statement speaks of ids up to 2^53, where the echo is exact (`C03_wf_*`). -/
-theorem C03_id_beyond_2_53_witness :
-    let j := demoEnv (.int 9007199254740993) t!"ping" none
-    wfEnvelope j = false ∧ wfEnvelope (demoEnv (.int 9007199254740992) t!"ping" none) = true ∧
-    ((serveStdio demoReg (.json j)).messages.all (wfMsg (some (demoEnv (.int 9007199254740992) t!"ping" none)))) = true ∧
-    ((serveStdio demoReg (.json j)).messages.all (wfMsg (some (demoEnv (.int 9007199254740994) t!"ping" none)))) = true ∧
-    ((serveStdio demoReg (.json (demoEnv (.int 5) t!"ping" none))).messages.all (wfMsg (some (demoEnv (.int 6) t!"ping" none)))) = false := by
+/-- Ids beyond ±2^53. A numeric id is decoded into a double and printed back, so what comes back is the NUMBER VALUE: for
+    every integer id below the float64 overflow all three servers answer with the double nearest to it — `nearestDouble`,
+    which is what `wfMsg` demands (`C03_wf_*` hold for these ids too) and is the model's `f64RoundInt`; it differs from the
+    id by at most half a unit in the last place a double keeps (2^(⌊log₂|id|⌋ − 52)); up to ±2^53 it is the id itself.
+    Never another sign, never another magnitude. -/
+theorem C03_ids_beyond_2_53 (i : Int) :
+    nearestDouble i = f64RoundInt i ∧ (i.natAbs ≤ 9007199254740992 → nearestDouble i = i) ∧
+    2 * (nearestDouble i - i).natAbs ≤ 2 ^ (Nat.log2 i.natAbs - 52) ∧
+    (0 < i → 0 < nearestDouble i) ∧ (i < 0 → nearestDouble i < 0) := by
+  exact ⟨nearestDouble_eq i, fun h => by rw [nearestDouble_eq]; exact f64RoundInt_exact i h, nearestDouble_close i⟩
+
+/-- …at the edges: 2^53 + 1 comes back as 2^53; 2^63 − 1 and 2^63 + 1 as 2^63 (in any decimal rendering of that double, Go's shortest one 9223372036854776000
+    included; POSITIVE — an answer bearing −2^63, or the next double, is not well-formed), −2^63 − 1 as −2^63, 2^64 − 1 as 2^64, 10^30 as the double nearest to it; on all three servers, with a result. -/
+theorem C03_id_edges_witness :
+    let echo (i : Int) : Bool :=
+      let j := demoEnv (.int i) t!"ping" none
+      (serveStreamable (demoCfg .stateless) demoReg {} (postOf .none false j)).2.messages.all (wfMsg (some j)) &&
+      (serveStreamable (demoCfg .stateless) demoReg {} (postOf .none false j)).2.hasResult &&
+      (serveSSE demoReg (ssePostOf j)).messages.all (wfMsg (some j)) && (serveSSE demoReg (ssePostOf j)).hasResult &&
+      (serveStdio demoReg (.json j)).messages.all (wfMsg (some j)) && (serveStdio demoReg (.json j)).hasResult
+    [9007199254740993, -9007199254740993, 9223372036854775807, 9223372036854775808, 9223372036854775809, -9223372036854775808,
+      -9223372036854775809, 18446744073709551615, 18446744073709551616, 10 ^ 19, 10 ^ 30].all echo = true ∧
+    nearestDouble 9007199254740993 = 9007199254740992 ∧ nearestDouble 9223372036854775807 = 9223372036854775808 ∧
+    nearestDouble (-9223372036854775809) = -9223372036854775808 ∧ nearestDouble 18446744073709551615 = 18446744073709551616 ∧
+    (let j := demoEnv (.int 9223372036854775807) t!"ping" none
+     wfMsg (some j) (okMsg (some (.int 9223372036854775808)) (.obj [])) = true ∧
+     wfMsg (some j) (okMsg (some (.int 9223372036854776000)) (.obj [])) = true ∧
+     wfMsg (some j) (okMsg (some (.int (-9223372036854775808))) (.obj [])) = false ∧
+     wfMsg (some j) (okMsg (some (.int 9223372036854777856)) (.obj [])) = false) ∧
+    (let j := demoEnv (.int 5) t!"ping" none
+     wfMsg (some j) (okMsg (some (.int 6)) (.obj [])) = false ∧ wfMsg (some j) (okMsg (some (.int 5)) (.obj [])) = true) ∧
+    wfEnvelope (demoEnv (.int 9007199254740993) t!"ping" none) = false ∧ wfEnvelope (demoEnv (.int 9007199254740992) t!"ping" none) = true := by
   decide +kernel
 
 /-! ## codes -/
